@@ -35,7 +35,10 @@ RULE = ('Three generated parts. gate: auth configured as a non-empty dict of '
         'identical. Non-trivial: a near-miss payload (superset, permutation, '
         'type confusion), or a read-only command with a live target, or a '
         'transparency scenario with room changes and a disconnect while an '
-        'admin listens.')
+        'admin listens. A fourth part (asyncio) runs the real instrumented '
+        '_send_ping of an application client on the virtual-time loop while '
+        'another connection creates / empties a namespace after 0-6 loop '
+        'iterations: the PING must be sent as without instrumentation.')
 ASSUMPTIONS = [
     'configured credentials are string-valued; empty dict/list credentials '
     'are outside the domain; a payload that makes the predicate raise does '
